@@ -42,7 +42,8 @@ RULE = ("BFS over histories of {call(side, kind in ok/later/declared-error/undec
         "parse of the delivered bytes.  States are merged on (per side: lost, disconnecting, undelivered bytes, partial "
         "box received, call kinds+results, responder invocations+completion).  non-trivial = distinct states in which "
         "two calls were outstanding at once, an answer overtook another, a loss hit an outstanding call, or a box was "
-        "partially delivered")
+        "partially delivered; plus an exhaustive error-mapping matrix: every responder behaviour incl. a command hierarchy's "
+        "own / inherited, plain / fatal declared errors, immediate and late, from either side, as full single-call scenarios")
 BOUNDS = {"quick": "<= 3 calls in total (any split between the sides), depth 6 (sharded on the first 2 events); immediate declared error raised as a subclass, late one as the exact class",
           "thorough": "<= 3 calls per side, <= 4 in total, depth 7 (sharded on the first 2 events)"}
 ASSUMPTIONS = [
@@ -56,8 +57,11 @@ ASSUMPTIONS = [
 MIN = {"quick": {"states": 70000, "transitions": 130000, "nontrivial": 30000, "outcomes": 6},
        "thorough": {"states": 70000, "transitions": 130000, "nontrivial": 30000, "outcomes": 6}}
 
-KINDS = ["ok", "later", "decl", "undecl", "declsub"]
-KCODE = {k: i for i, k in enumerate(KINDS)}
+KINDS = ["ok", "later", "decl", "undecl", "declsub"]            # BFS alphabet (thorough)
+# error kinds only used by the (exhaustive) error-mapping matrix: own / inherited, plain / fatal, on the derived command
+MATRIX_KINDS = ["own", "inh", "fatalinh", "fatalown"]
+ALLKINDS = KINDS + MATRIX_KINDS
+KCODE = {k: i for i, k in enumerate(ALLKINDS)}
 HOWS = ["ok", "decl", "undecl", "declsub"]
 
 
@@ -75,10 +79,42 @@ class Sum(amp.Command):
     errors = {DeclErr: b"DECL"}
 
 
-class Echo(amp.Command):
+class OwnErr(Exception):
+    pass
+
+
+class FatalBase(Exception):
+    pass
+
+
+class FatalOwn(Exception):
+    pass
+
+
+class EchoBase(amp.Command):
+    """Base of a command hierarchy: declares one plain and one fatal error."""
     arguments = [(b"s", amp.String())]
     response = [(b"s", amp.String())]
     errors = {DeclErr: b"DECL"}
+    fatalErrors = {FatalBase: b"FATALBASE"}
+
+
+class Echo(EchoBase):
+    """Derived command: overrides both tables with further errors; the inherited ones must still be declared."""
+    errors = {OwnErr: b"OWN"}
+    fatalErrors = {FatalOwn: b"FATALOWN"}
+
+
+# responder behaviour / late completion -> (exception to raise, name of the exception the caller must get)
+ERRORS = {
+    "decl": (lambda: DeclErr("declared"), "DeclErr"),
+    "declsub": (lambda: DeclSub("declared subclass"), "DeclErr"),
+    "inh": (lambda: DeclErr("inherited declared"), "DeclErr"),
+    "own": (lambda: OwnErr("own declared"), "OwnErr"),
+    "fatalinh": (lambda: FatalBase("inherited fatal"), "FatalBase"),
+    "fatalown": (lambda: FatalOwn("own fatal"), "FatalOwn"),
+    "undecl": (lambda: RuntimeError("undeclared"), "UnknownRemoteError"),
+}
 
 
 class LossA(error.ConnectionLost):
@@ -126,15 +162,11 @@ class Side:
 
     def respond(self, cmd, arg):
         self.invocations.append((cmd, arg))
-        kind = KINDS[arg % 10]
+        kind = ALLKINDS[arg % 10]
         if kind == "ok":
             return answer_for(cmd, arg)
-        if kind == "decl":
-            raise DeclErr("declared %d" % arg)
-        if kind == "undecl":
-            raise RuntimeError("undeclared %d" % arg)
-        if kind == "declsub":
-            raise DeclSub("declared subclass %d" % arg)
+        if kind in ERRORS:
+            raise ERRORS[kind][0]()
         d = defer.Deferred()
         self.pending.append({"cmd": cmd, "arg": arg, "d": d, "done": None})
         return d
@@ -300,12 +332,8 @@ def apply(st, ev):
                 c.phase, c.how = "answered", how
         if how == "ok":
             p["d"].callback(answer_for(p["cmd"], p["arg"]))
-        elif how == "decl":
-            p["d"].errback(Failure(DeclErr("late declared")))
-        elif how == "declsub":
-            p["d"].errback(Failure(DeclSub("late declared subclass")))
         else:
-            p["d"].errback(Failure(RuntimeError("late undeclared")))
+            p["d"].errback(Failure(ERRORS[how][0]()))
     elif op == "lose":
         side = st.side(ev[1])
         side.lost = True
@@ -350,9 +378,7 @@ def expected_before_loss(c):
     if c.phase == "delivered":
         if c.how == "ok":
             return [("ok", tuple(sorted(answer_for(c.cmd, c.arg).items())))]
-        if c.how in ("decl", "declsub"):
-            return [("err", "DeclErr")]
-        return [("err", "UnknownRemoteError")]
+        return [("err", ERRORS[c.how][1])]
     return []
 
 
@@ -369,7 +395,8 @@ def expected(c):
 def kind_of_result(r):
     if r[0] == "ok":
         return "answer"
-    return {"DeclErr": "declared-error", "UnknownRemoteError": "unknown-remote-error", "LossA": "loss-reason",
+    return {"DeclErr": "declared-error", "OwnErr": "declared-error", "FatalBase": "fatal-declared-error",
+            "FatalOwn": "fatal-declared-error", "UnknownRemoteError": "unknown-remote-error", "LossA": "loss-reason",
             "LossB": "loss-reason"}.get(r[1], "other-error")
 
 
@@ -474,12 +501,56 @@ def prefixes(tier):
 
 
 def shards(tier, seed):
-    return [["root"]] + [["prefix", p] for p in prefixes(tier)]
+    return [["matrix"], ["root"]] + [["prefix", p] for p in prefixes(tier)]
+
+
+def matrix_histories():
+    """Every (caller side, responder behaviour incl. the command hierarchy's own / inherited, plain / fatal errors,
+    immediate / late) as a complete single-call scenario followed by both losses."""
+    for side, other in (("A", "B"), ("B", "A")):
+        for kind in ["ok"] + sorted(ERRORS):
+            yield [["call", side, kind], ["deliver", side, "all"], ["deliver", other, "all"], ["lose", other], ["lose", side]]
+            yield [["call", side, "later"], ["deliver", side, "all"], ["complete", other, 0, kind],
+                   ["deliver", other, "all"], ["lose", side], ["lose", other]]
+            # two calls, second one decides the connection's fate, answers delivered box by box
+            yield [["call", side, "later"], ["call", side, kind], ["deliver", side, "all"], ["complete", other, 0, "ok"],
+                   ["deliver", other, "box"], ["lose", side]]
+
+
+def run_matrix(stats, tier):
+    for hist in matrix_histories():
+        st = initial_for(tier, [])()
+        done = []
+        for ev in hist:
+            if ev[0] == "deliver":
+                src = st.side(ev[1])
+                if not src.wire or src.peer.lost or src.peer.tr.disconnecting:
+                    continue            # nothing to deliver / receiver already closing: skip the step
+            if ev[0] == "complete" and not [x for x in st.side(ev[1]).pending if x["done"] is None]:
+                continue
+            apply(st, ev)
+            done.append(ev)
+            stats.transitions += 1
+            stats.traces += 1
+            bad = list(invariant(st, done))
+            for sig, detail in bad:
+                stats.violation(sig, detail, {"prefix": [], "history": list(done), "tier": tier})
+            if bad:
+                break
+        stats.states += 1
+        stats.nt(("matrix", repr(hist)))
+        for s_ in (st.A, st.B):
+            for c in s_.calls:
+                for r in c.results:
+                    stats.outcome("result:" + kind_of_result(r))
 
 
 def run_shard(shard, tier, seed):
     mc_, mt, depth, plen = config(tier)
     stats = Stats()
+    if shard[0] == "matrix":
+        run_matrix(stats, tier)
+        return stats
     if shard[0] == "root":
         prefix, d = [], plen
     else:
